@@ -26,6 +26,7 @@ Jobs ==
                              id \in { V64(291), <<0,0,0,0,31,255,255,255>>, <<0,0,0,0,128,0,1,35>> }, fd \in {0, 1}, k \in {1, 5} }
     [] Scn = "strarr" -> { [list |-> l] : l \in { << >>, << <<97>> >>, << <<97, 98, 0>>, << >>, <<99>> >>, << << >>, << >> >> } }
     [] Scn = "vss"    -> { [mode |-> md, dt |-> dt, c |-> c, p |-> p, k |-> k] : md \in {0, 1}, dt \in Types, c \in {0, 1, 3}, p \in {1, 2}, k \in {5} }
+                         \cup { [mode |-> 0, dt |-> dt, c |-> 300, p |-> 2, k |-> 5] : dt \in { t \in Types : IsVar(t) } }
 
 HdrWithX(a, mode, dt) == SetSem(SetSem(a, 2, "Vss", "addr_mode", V64(mode)), 2, "Vss", "vss_datatype", V64(dt))
 vars2 == <<mem, hb, out, step, st, job>>
